@@ -40,7 +40,9 @@ class Profile:
 
     def __init__(self, *, lat_kind='uniform', lat=0.01, stall_call=None, crash_at=None,
                  crash_commit_inflight=None, fail_call=None, fail_mode='before', proc='p',
-                 list_order='sorted', fail_op=None, stall_time=30.0, exists_lies_p=0.0, unavailable=(), lat_cap=60.0):
+                 list_order='sorted', fail_op=None, stall_time=30.0, exists_lies_p=0.0, unavailable=(), lat_cap=60.0,
+                 list_page=None):
+        self.list_page = list_page            # a listing arrives in pages of this many names, one round trip each
         self.lat_cap = lat_cap
         self.stall_time = stall_time
         self.exists_lies_p = exists_lies_p    # eventual consistency: exists() may deny an object that is there
@@ -421,7 +423,11 @@ class AsyncSimStore(_Base, Backend):
             names = self._listing(prefix)
         finally:
             self._end(rec)
-        for n in names:
+        page = self.profile.list_page
+        for i, n in enumerate(names):
+            if page and i and i % page == 0:
+                self.fired['list_next_page'] = self.fired.get('list_next_page', 0) + 1
+                await self._pause(self._latency(rec))
             yield n
 
     async def delete(self, name):
